@@ -35,7 +35,8 @@ def hang_sig(case):
 
 def bounds(tier):
     return {"L": 2 if tier == "quick" else 3, "datasets": 5, "global_seeds": [0, 1],
-            "large_n": [3500] if tier == "quick" else [1025, 3500, 8200]}
+            "large_n": [3500] if tier == "quick" else [1025, 3500, 8200],
+            "perm_depth": 6 if tier == "quick" else 7}
 
 
 def cases(tier, seed):
@@ -43,6 +44,8 @@ def cases(tier, seed):
     loader.load()
     from checks import catalog as K
     b = bounds(tier)
+    for first in PERM_OPS:
+        yield {"cls": "PermutationReciprocalTransformer", "variant": "histories", "first": first, "depth": b["perm_depth"]}
     for name, e in K.catalogue().items():
         if not e["fit"]:
             continue
@@ -51,6 +54,98 @@ def cases(tier, seed):
         if e["kind"] in ("reg", "clf", "cluster", "poly", "nmf", "recip") and name not in LARGE_SKIP:
             for v in e["variants"]:
                 yield {"cls": name, "variant": v, "large": b["large_n"]}
+
+
+PERM_OPS = ("fitA", "fitB", "tr", "closest=True", "closest=False", "seed=5")
+
+
+def _perm_histories(case):
+    """Every history of length <= depth over {fit(A), fit(B), transform of seen + unseen targets, set_params(closest=True / False /
+    random_state=5)} on ONE PermutationReciprocalTransformer, starting with case['first']; after every history that contains a fit, the
+    object answers a probe exactly like a fresh object with the same parameters fitted on the last training set."""
+    import itertools
+    import numpy
+    from mlinsights.mlmodel.sklearn_transform_inv_fct import PermutationReciprocalTransformer as P
+    A = numpy.array([1.0, 4.0, 7.0, 9.0, 4.0])
+    B = numpy.array([0.0, 2.5, 5.0, 8.0, 3.0, 6.0])
+    probe = numpy.array([5.1, 0.2, 8.7, 4.0, 2.5, 7.0, -3.0, 20.0])
+    viol, sigs = [], set()
+
+    def bad(kind, cond, msg):
+        sig = "PermutationReciprocalTransformer|%s|%s" % (kind, cond)
+        if sig not in sigs:
+            sigs.add(sig)
+            viol.append({"sig": sig, "msg": msg[:900]})
+
+    def answer(t):
+        out = []
+        for v in probe:
+            try:
+                out.append(float(numpy.asarray(t.transform(None, numpy.array([v]))[1]).ravel()[0]))
+            except Exception as e:
+                out.append(type(e).__name__)
+        try:
+            inv = t.get_fct_inv()
+            out.append(sorted((float(k), float(v)) for k, v in inv.permutation_.items()))
+        except Exception as e:
+            out.append(type(e).__name__)
+        return out
+
+    def apply(t, op, state):
+        if op == "fitA":
+            numpy.random.seed(0); t.fit(None, A); state["last"] = A
+        elif op == "fitB":
+            numpy.random.seed(0); t.fit(None, B); state["last"] = B
+        elif op == "tr":
+            for v in (probe[0], probe[3], probe[6]):
+                try:
+                    t.transform(None, numpy.array([v]))
+                except Exception:
+                    pass
+        elif op == "closest=True":
+            t.set_params(closest=True)
+        elif op == "closest=False":
+            t.set_params(closest=False)
+        elif op == "seed=5":
+            t.set_params(random_state=5)
+
+    fresh = {}
+    cnt = trans = 0
+    first = case["first"]
+    for depth in range(1, case["depth"] + 1):
+        for rest in itertools.product(PERM_OPS, repeat=depth - 1):
+            hist = (first,) + rest
+            if not hist[-1].startswith(("closest", "seed", "fit")) or not any(o.startswith("fit") for o in hist):
+                continue       # observed after a fit or a parameter change (a probe is itself a 'tr')
+            cnt += 1
+            t = P(random_state=1, closest=True)
+            state = {}
+            try:
+                for op in hist:
+                    trans += 1
+                    apply(t, op, state)
+                got = answer(t)
+            except Exception as e:
+                bad("history raises %s" % type(e).__name__, "history of fits, transforms and set_params", "%s history %r" % (str(e)[:200], list(hist)))
+                continue
+            key = (t.closest, t.random_state, id(state["last"]))
+            # the permutation is drawn at fit time with the random_state in force at that moment: the reference replays the parameter
+            # changes made before the last fit, fits once, then applies the later ones
+            li = max(i for i, o in enumerate(hist) if o.startswith("fit"))
+            pre = tuple(o for o in hist[:li] if o.startswith(("closest", "seed")))
+            post = tuple(o for o in hist[li + 1:] if o.startswith(("closest", "seed")))
+            fk = (pre[-3:], hist[li], post)
+            rs_at_fit = 5 if "seed=5" in pre else 1
+            fk = (rs_at_fit, hist[li], t.closest, t.random_state)
+            if fk not in fresh:
+                f = P(random_state=rs_at_fit, closest=True)
+                apply(f, hist[li], {})
+                f.set_params(closest=t.closest, random_state=t.random_state)
+                fresh[fk] = answer(f)
+            if got != fresh[fk]:
+                bad("object after a history differs from a fresh object with the same parameters fitted on the last training set",
+                    "history of fits, transforms and set_params (depth %d)" % len(hist), "history %r: probe %r -> %r, fresh object -> %r" % (list(hist), probe.tolist(), got, fresh[fk]))
+    return {"viol": viol, "nontrivial": True, "states": cnt, "transitions": trans, "outcome": ("perm-histories", first)}
 
 
 def _ill_conditioned(K, make, kind, dat, ref_obs, numpy):
@@ -135,6 +230,8 @@ def run_case(case):
     from checks import catalog as K
 
     warnings.simplefilter("ignore")
+    if "first" in case:
+        return _perm_histories(case)
     viol = []
     sigs = set()
     cls = case["cls"]
